@@ -598,6 +598,36 @@ def c15_templates(tier):
                             ops.append(dict(o))
                         ops[-1]["mark"] = "rep_end"
                     out.append({"id": f"cyc_v{ver}_{cname}_{s}_{nfill}", "ver": ver, "heavy": "last", "ops": ops})
+        # Prefixes that leave a RETAINED BUT EMPTY container behind, with a reopen inside the cycle (what was kept
+        # for reuse must be found again from the image alone):
+        #  - the mini stream: every small stream removed, the root keeps its chain with length 0;
+        #  - the directory: it spilled into a further sector and shrank back, so that the highest live slot is
+        #    the last slot of a sector and the next sector holds only unallocated entries.
+        per = 4 if ver == 3 else 32
+        def finish(name, ops, cyc):
+            ops[-1]["mark"] = "cycle_base"
+            for rep in range(4):
+                for o in cyc:
+                    ops.append(dict(o))
+                ops[-1]["mark"] = "rep_end"
+            out.append({"id": f"cyc_v{ver}_{name}", "ver": ver, "heavy": "last", "ops": ops})
+        for s in (100, 1000, 4095):
+            ops = [{"op": "create_stream", "p": sp(["AB"])}, {"op": "write", "p": sp(["AB"]), "off": 0, "runs": [[6, 5000]]},
+                   {"op": "create_stream", "p": sp(["a"])}, {"op": "write", "p": sp(["a"]), "off": 0, "runs": [[5, 200]]},
+                   {"op": "remove_stream", "p": sp(["a"])}]
+            finish(f"emptymini_{s}", ops, [{"op": "reopen", "mode": "strict"}, {"op": "create_stream", "p": sp(["zz"])},
+                                          {"op": "write", "p": sp(["zz"]), "off": 0, "runs": [[7, s]]},
+                                          {"op": "remove_stream", "p": sp(["zz"])}])
+        base = C15_FILLERS + ["k1", "k2", "k3", "quux", "AB", "a"]          # 30 distinct names of dictionary A
+        paths = [[n] for n in base] + [[base[0], n] for n in base[1:]] + [[base[1], n] for n in base[2:]]
+        for live in (per - 1, 2 * per - 1):            # live entries besides the root: highest live slot = last of a sector
+            ops = []
+            for pth in paths[:live + 2]:
+                ops.append({"op": "create_storage", "p": sp(pth)})
+            for pth in reversed(paths[live:live + 2]):
+                ops.append({"op": "remove_storage", "p": sp(pth)})
+            finish(f"dirshrunk_{live}", ops, [{"op": "reopen", "mode": "strict"}, {"op": "create_storage", "p": sp(["zz"])},
+                                             {"op": "remove_storage", "p": sp(["zz"])}])
     return out
 
 
